@@ -22,6 +22,7 @@ RULE = ("Valid EML trees, mutated valid trees, fixture subtrees and arbitrary tr
         "Oracle: a deep snapshot (every field incl. dict order, child identity/order, parent links, namespace-dict "
         "sharing, node registry) is identical before and after every call, and a call repeated later returns the same "
         "value.  Non-trivial: a tree with a node whose content contains <, > or &, or >= 5 nodes and >= 4 operations.")
+RULE += ('  Pre-states: registry loaded twice / unregistered, and trees whose listed children carry no or a stale parent link.')
 ASSUMPTIONS = [
     "operations may raise by contract (e.g. evaluation on malformed trees); the snapshot comparison still applies",
     "results are compared by value for strings and by node identity for node results",
